@@ -211,6 +211,7 @@ struct ctx {
     /* per-operation window */
     int ev_mark, rec_mark;
     int exp_throw[PFX_MAX_PROBES], opt_throw[PFX_MAX_PROBES];
+    int exp_root, opt_root; unsigned root_mark;     /* provide_request events no service probe answers must travel on to the end of the probe chain */
     int exp_reg[2], exp_unreg[2];   /* register / unregister commands each tail must receive in this operation */
     int act_reg[2], act_unreg[2];
     int nexp; struct expcb exp[MAXCB];
@@ -435,6 +436,7 @@ static int m_throw(struct ctx *c, int probe, struct ent e, bool optional)
         m_answer(c, e, svc_code(c, e.type));
         return 0;
     }
+    if (optional) c->opt_root++; else c->exp_root++;
     if (!optional) {
         c->cls |= 1u << CL_NO_PROVIDER;
         if (c->svc_was_off[svc_of(e.type)] && !c->svc_on[svc_of(e.type)]) c->cls |= CLS(CL_SVC_OFF_THEN_UNANSWERED);
@@ -952,6 +954,7 @@ static void begin_op(struct ctx *c)
 {
     memset(c->exp_throw, 0, sizeof c->exp_throw);
     memset(c->opt_throw, 0, sizeof c->opt_throw);
+    c->exp_root = c->opt_root = 0; c->root_mark = c->pfx.root_provide_requests;
     memset(c->exp_reg, 0, sizeof c->exp_reg);
     memset(c->exp_unreg, 0, sizeof c->exp_unreg);
     memset(c->act_reg, 0, sizeof c->act_reg);
@@ -1110,6 +1113,16 @@ static void compare_throws(struct ctx *c, const char *what)
     }
 }
 
+/* a service probe that holds no object (or does not serve the request's type) passes the event on: it reaches the root probe */
+static void compare_root(struct ctx *c, const char *what)
+{
+    int act = (int)(c->pfx.root_provide_requests - c->root_mark);
+    if (act < c->exp_root)
+        FAILC("throw/not-passed-on", "%s: %d provide_request event(s) reached the end of the probe chain, the model requires %d (no probe of the chain provides them: each probe must pass the event on to the next)", what, act, c->exp_root);
+    else if (act > c->exp_root + c->opt_root)
+        FAILC("throw/passed-on-although-answered", "%s: %d provide_request event(s) reached the end of the probe chain, the model allows %d", what, act, c->exp_root + c->opt_root);
+}
+
 static bool alive_cand(struct ctx *c, const struct cand *k)
 {
     if (k->q < 0) return m_slot_reg[k->slot];
@@ -1220,6 +1233,7 @@ static void end_op(struct ctx *c, const char *what)
     if (!c->ret) model_deaths(c);
     if (!c->ret) compare_callbacks(c, what);
     if (!c->ret) compare_throws(c, what);
+    if (!c->ret) compare_root(c, what);
     if (!c->ret) compare_tails(c, what);
     if (!c->ret) compare_counts(c, what);
     if (!c->ret) check_own_requests(c, what);
